@@ -34,6 +34,9 @@ def gen_cases(tier, seed, ctx):
         for cut in cuts:
             add('truncate', b[:cut], rnd.choice(scheds))
         add('trailing-garbage', b + b'\x00garbage', rnd.choice(scheds))
+        # the identifier switched to that of a detached header (the header checksum does not cover it): the body is all there
+        for s in scheds[:3]: add('magic-swap', b'\x00ZHR1' + b[5:], s)
+        add('magic-swap-truncated', b'\x00ZHR1' + b[5:hl], rnd.choice(scheds))
         # raw bit flips anywhere
         for _ in range(30 if tier == 'quick' else 300):
             pos = rnd.randrange(len(b)); m = bytearray(b); m[pos] ^= 1 << rnd.randrange(8)
@@ -72,5 +75,5 @@ def run(tier, seed, replay=None):
             "(none/zstd x dict x uncompressed-source flag x hash types x 0..3 chunks, plus multi-10kB chunks) and on their mutants: "
             "truncation (every length for small files in thorough, sampled otherwise), raw bit flips in header and body, re-sealed field "
             "mutants, swapped bodies / index entries, declared sizes +-1/+200, corrupted bodies with re-computed chunk (and data) checksums, "
-            "trailing garbage; non-trivial = not the unmodified file")
+            "trailing garbage, the identifier switched to the detached-header one with the body present / absent; non-trivial = not the unmodified file")
     return E.standard_run(PROP, MODULES, gen_cases, tier, seed, replay, ASSUMPTIONS, rule, nontrivial=nontrivial, timeout_s=60)
